@@ -240,6 +240,12 @@ def stepD (st : DSt) (fs : List String) : DSt × String :=
       let tok := wrapFirst path ttl
       (some { st := initW true 1 [], cleanup := [], chain := some tok }, showInfo tok.handed)
     | none => (st, "bad-op")
+  | ["sealdenied", n] =>
+    -- n-1 leased uses through handleRequest, then a denied sys/seal (Core.sealInitCommon) as the n-th use: the use step
+    -- counts it, so the token has spent its n uses: revoked, with the n-1 leases it obtained (`C19.spent_token_revoked_any_entry`)
+    match n.toNat? with
+    | some n => if n = 0 then (st, "bad-op") else (st, s!"denied|token:gone|leases:{n - 1}/{n - 1}")
+    | none => (st, "bad-op")
   | _ =>
     match st with
     | none => (none, "bad-op")
